@@ -14,7 +14,7 @@ RULE = ("lattice configs from one PRNG: rank 1-4, sizes 2-4 (<= 81 vertices), un
         "huge / sorted / anti-sorted / feasible (projected twice). Non-trivial = the constraint moved the kernel or "
         "the kernel was feasible by construction; distinct = (entry point, config class, kernel kind, moved, hash).")
 ASSUMPTIONS = ["float64 kernels, tolerance 1e-9*scale for the model comparison and 1e-7*scale for the oracle",
-               "joint_unimodalities are not modelled (never generated for the model comparison)"]
+               "joint unimodalities are configured alongside in ~20% of the extra-family configurations (LatticeConstraints / layer entries; lattice_lib.finalize_constraints does not take them)"]
 
 
 def gen_cfg(rng, allow_extra=True):
@@ -57,11 +57,19 @@ def gen_cfg(rng, allow_extra=True):
     if rank >= 2 and rng.random() < 0.3:
       a, b = rng.sample(range(rank), 2)
       jm.append((a, b))
+  ju = []
+  if allow_extra and rng.random() < 0.2:
+    # an approximately enforced family configured ALONGSIDE: joint unimodality on free dimensions
+    cand = [d for d in range(rank) if not mono[d] and not uni[d] and sizes[d] >= 3
+            and all(d not in p for p in jm)]
+    if cand:
+      k = rng.randint(1, min(2, len(cand)))
+      ju.append((rng.sample(cand, k), rng.choice(["valley", "peak"])))
   bmode = rng.choice(["none", "none", "min", "max", "both"])
   a = Fraction(rng.randint(-8, 8), 4)
   lo = a if bmode in ("min", "both") else None
   hi = a + Fraction(rng.randint(1, 16), 4) if bmode in ("max", "both") else None
-  return dict(sizes=sizes, mono=mono, ew=ew, tz=tz, uni=uni, md=md, rd=rd, jm=jm, lo=lo, hi=hi)
+  return dict(sizes=sizes, mono=mono, ew=ew, tz=tz, uni=uni, md=md, rd=rd, jm=jm, ju=ju, lo=lo, hi=hi)
 
 
 def gen_kernel(rng, n, units):
@@ -89,7 +97,7 @@ def htrap_class(cfg):
 def cfg_class(cfg):
   return "r%d:m%d:ew%d:tz%d:x%d:b%s%s:%s" % (
       len(cfg["sizes"]), sum(cfg["mono"]), len(cfg["ew"]), len(cfg["tz"]),
-      int(any(cfg["uni"]) or bool(cfg["md"]) or bool(cfg["rd"]) or bool(cfg["jm"])),
+      int(any(cfg["uni"]) or bool(cfg["md"]) or bool(cfg["rd"]) or bool(cfg["jm"])) + 2 * int(bool(cfg.get("ju"))),
       "L" if cfg["lo"] is not None else "", "H" if cfg["hi"] is not None else "", htrap_class(cfg))
 
 
@@ -105,6 +113,13 @@ def model_line(op, cfg, col, iters=None, strict=None):
   if op == "lat.finalize":
     return "lat.finalize %s %s %s %s %s %s %s" % (il(cfg["sizes"]), il(cfg["mono"]), trusts_tok(cfg["ew"]),
                                                    trusts_tok(cfg["tz"]), opt(cfg["lo"]), opt(cfg["hi"]), frl(col))
+  if cfg.get("ju"):
+    # optional extra token after `jm`: joint unimodalities `d1,d2,...,flag;...` (flag 1 = valley, 0 = peak)
+    ju = il2([list(d) + [1 if dr == "valley" else 0] for d, dr in cfg["ju"]])
+    return "lat.constraint %s %s %s %s %s %s %s %s %s %s %s %d %d %s" % (
+        il(cfg["sizes"]), il(cfg["mono"]), il(cfg["uni"]), trusts_tok(cfg["ew"]), trusts_tok(cfg["tz"]),
+        il2(cfg["md"]), il2(cfg["rd"]), il2(cfg["jm"]), ju, opt(cfg["lo"]), opt(cfg["hi"]), iters, int(strict),
+        frl(col))
   return "lat.constraint %s %s %s %s %s %s %s %s %s %s %d %d %s" % (
       il(cfg["sizes"]), il(cfg["mono"]), il(cfg["uni"]), trusts_tok(cfg["ew"]), trusts_tok(cfg["tz"]),
       il2(cfg["md"]), il2(cfg["rd"]), il2(cfg["jm"]), opt(cfg["lo"]), opt(cfg["hi"]), iters, int(strict), frl(col))
@@ -126,6 +141,7 @@ def real_call(entry, cfg, wf, iters):
             monotonic_dominances=[tuple(t) for t in cfg["md"]] or None,
             range_dominances=[tuple(t) for t in cfg["rd"]] or None,
             joint_monotonicities=[tuple(t) for t in cfg["jm"]] or None,
+            joint_unimodalities=[(tuple(d), dr) for d, dr in cfg.get("ju", [])] or None,
             output_min=fl(cfg["lo"]), output_max=fl(cfg["hi"]))
   if entry == "constraint":
     cons = lattice_layer.LatticeConstraints(num_projection_iterations=iters, enforce_strict_monotonicity=True, **kw)
@@ -182,6 +198,9 @@ def max_violation(cfg, t):
     mid = (tt[1:, :-1] + tt[:-1, 1:]) / 2
     v.append(float((mid - tt[1:, 1:]).max()))
     v.append(float((tt[:-1, :-1] - mid).max()))
+  if cfg.get("ju"):
+    from props import c08   # lazy: c08 imports this module
+    v.append(c08.ju_violation(cfg, t))
   if cfg["lo"] is not None:
     v.append(float(cfg["lo"]) - float(t.min()))
   if cfg["hi"] is not None:
@@ -204,6 +223,7 @@ def feasible_kernel(rng, cfg, units):
       room = (hi - base)
       blocked = {c for _, c, _ in cfg["tz"]} | {d for d in range(rank) if cfg["uni"][d] or not cfg["mono"][d]}
       blocked |= {i for p in cfg["md"] + cfg["rd"] + cfg["jm"] for i in p}
+      blocked |= {d for ds, _ in cfg.get("ju", []) for d in ds}
       free = [d for d in range(rank) if d not in blocked]
       for d in free:
         slopes[d] = room * Fraction(rng.randint(0, 4), 8) / (len(free) * (sizes[d] - 1))
@@ -350,6 +370,7 @@ def replay(ctx, failure):
   cfg = case["cfg"]
   for k in ("ew", "tz", "md", "rd", "jm"):
     cfg[k] = [tuple(t) for t in cfg[k]]
+  cfg["ju"] = [(list(d), dr) for d, dr in cfg.get("ju", [])]
   cfg["lo"] = None if cfg["lo"] is None else Fraction(cfg["lo"])
   cfg["hi"] = None if cfg["hi"] is None else Fraction(cfg["hi"])
   w = [[Fraction(v) for v in row] for row in case["w"]]
